@@ -239,7 +239,7 @@ def run(P: Program, R: Report, tier: str) -> None:
             if not iters:
                 R.undecided("R15.2", f, f.node, "CSV rows iterate the closed set", "construction of the rows not recognised")
             else:
-                R.check(len(iters) == 1 and iters[0] == cv, "R15.2", f, loops[0], "CSV rows iterate the closed set", f"rows iterate `{iters}`", via="dataflow")
+                R.check(set(iters) == {cv}, "R15.2", f, loops[0], "CSV rows iterate the closed set", f"rows iterate `{iters}`", via="dataflow")  # one loop per output mode is fine: each iterates the closed set
             # the relabelled segmentation maps only exported ids
             ma = [c for c in ast.walk(f.node) if isinstance(c, ast.Call) and call_name(c) == "map_array"]
             if ma:
